@@ -22,6 +22,8 @@ structure Params where
   expiryDrainsAlways : Bool
   /-- `Run` closes a stream it could not park (slot buffer full) -/
   runClosesDropped : Bool
+  /-- after a failed read of a stream's id header `Run` closes that stream and goes on (it does not leave the loop) -/
+  headerErrorContinues : Bool
   /-- capacity of `muxBrokerPending.ch` -/
   slotCap : Nat
   /-- `time.After` in `Accept` (ms) -/
@@ -31,7 +33,7 @@ structure Params where
   deriving DecidableEq, Repr
 
 def Params.Good (P : Params) : Prop :=
-  P.expiryRecvHasDefault = true ∧ P.expiryDrainsAlways = true ∧ P.runClosesDropped = true ∧ P.slotCap = 1
+  P.expiryRecvHasDefault = true ∧ P.expiryDrainsAlways = true ∧ P.runClosesDropped = true ∧ P.headerErrorContinues = true ∧ P.slotCap = 1
 
 instance (P : Params) : Decidable P.Good := by unfold Params.Good; exact inferInstance
 
@@ -102,6 +104,8 @@ inductive RunPc
   | idle
   /-- has `p := getStream(id)` (slot `k`) and the stream `sid` in hand -/
   | have (id k sid : Nat)
+  /-- the loop has ended although the session is alive -/
+  | dead
   deriving DecidableEq, Repr
 
 /-- Finite maps are functions `Nat → Option α` together with an allocation
@@ -152,6 +156,8 @@ inductive Event
   | twFinish (t : Nat)
   /-- a blocked `timeoutWait` receives at last -/
   | twUnblock (t : Nat)
+  /-- the peer opened a stream and closed it before writing the id header; `Run` accepts it and the read fails -/
+  | abort
   /-- time passes -/
   | tick (d : Nat)
   deriving DecidableEq, Repr
@@ -210,7 +216,11 @@ def step (P : Params) (s : State) : Event → Option State
         | none => some (setStream (setSlot s1 k (fun x => { x with buf := some sid })) sid (.parked k))
         | some _ => some (setStream s1 sid (if P.runClosesDropped then .closed else .dropped))
       | none => none
-    | .idle => none
+    | _ => none
+  | .abort =>
+    match s.run with
+    | .idle => some (if P.headerErrorContinues then s else { s with run := .dead })
+    | _ => none
   | .accept id =>
     match s.lock with
     | none =>
